@@ -126,3 +126,7 @@ package ws
 //@   ghost lerr = result1 at call:ListenTCP#1
 //@   ensures !isnil(result) && called("ListenTCP") ==> !isnil(lerr)
 //@   ensures result == mangos.ErrTLSNoCert || result == mangos.ErrTLSNoConfig ==> !called("ListenTCP")
+
+// ---- round 12: the scheme string ----
+//@ func (wsTran).Scheme
+//@   ensures result == "ws"
